@@ -417,7 +417,88 @@ func ruleN1(w *world.World, r *report.RuleResult) {
 	}
 }
 
+// ---- N6 ----
+
+func init() {
+	register("N6", 2, "a handler chooses the database it flushes from the request: the database argument of HandlerFuncParams.Flush is the value stored under \"Database\" in the request's context, or the constant -1 (all databases) - not the connection table (a replayed, embedded or replicated command has no connection entry and would hit database 0)", ruleN6)
+}
+
+func ruleN6(w *world.World, r *report.RuleResult) {
+	cmds, err := w.Commands()
+	if err != nil {
+		r.Err = err
+		return
+	}
+	hs, _ := handlersOf(cmds, nil)
+	isDBRead := func(v ssa.Value) bool {
+		_, ok := isCtxValueRead(v, "Database")
+		return ok
+	}
+	n := 0
+	for _, h := range hs {
+		k := 0
+		for _, f := range w.ReachFrom(h, false).Fns {
+			if !world.InModule(f) || f.Blocks == nil {
+				continue
+			}
+			for _, c := range world.Calls(f) {
+				if world.AccessorCall(c) != "Flush" || len(c.Common().Args) != 1 {
+					continue
+				}
+				n++
+				k++
+				key := fmt.Sprintf("%s|Flush-database#%d", world.FuncName(h), k)
+				arg := c.Common().Args[0]
+				if v, ok := world.ConstInt(arg); ok && v == -1 {
+					r.OK(key, w.InstrPos(c), "flushes every database (constant -1)")
+					continue
+				}
+				if derivesFromNoArith(arg, isDBRead) {
+					r.OK(key, w.InstrPos(c), "flushes the database of the request's context")
+					continue
+				}
+				r.Fail(key, w.InstrPos(c), fmt.Sprintf("%s flushes database %s, which is not the request context's \"Database\": for a command that has no connection entry (AOF replay, embedded caller, raft apply) a value taken from the connection table is the zero value, so FLUSHDB issued in database n empties database 0 after a restart and leaves database n's keys in place", world.FuncName(f), exprString(arg)))
+			}
+		}
+	}
+	if n == 0 {
+		r.Fail("N6|anchor", "", "no handler calls HandlerFuncParams.Flush: the anchor of the rule is lost")
+	}
+}
+
 // ---- N2 ----
+
+// localSlice: the slice value is built in this function (make, literal, append, phi of those), not
+// loaded from a field or a global.
+func localSlice(v ssa.Value, d int) bool { return localSlice2(v, map[ssa.Value]bool{}) }
+
+func localSlice2(v ssa.Value, seen map[ssa.Value]bool) bool {
+	if seen[v] {
+		return true // a cycle through loop phis adds no new origin
+	}
+	seen[v] = true
+	switch x := v.(type) {
+	case *ssa.MakeSlice:
+		return true
+	case *ssa.Slice:
+		if _, ok := x.X.(*ssa.Alloc); ok {
+			return true
+		}
+		return localSlice2(x.X, seen)
+	case *ssa.Phi:
+		for _, e := range x.Edges {
+			if !localSlice2(e, seen) {
+				return false
+			}
+		}
+		return true
+	case *ssa.Call:
+		if bi, ok := x.Call.Value.(*ssa.Builtin); ok && bi.Name() == "append" && len(x.Call.Args) > 0 {
+			return localSlice2(x.Call.Args[0], seen)
+		}
+	}
+	return false
+}
 
 var perDBPaths = []string{pStore, pVol, pLFU, pLRU}
 
@@ -479,6 +560,28 @@ func ruleN2(w *world.World, r *report.RuleResult) {
 			}
 			_, isNext := ex.Tuple.(*ssa.Next)
 			return isNext
+		}):
+			return "element of a local list of databases", true
+		case derivesFromNoArith(idx, func(v ssa.Value) bool {
+			// for _, db := range databases - element of a local []int (built from the parameter and/or
+			// the keys of a per-database map)
+			u, ok := v.(*ssa.UnOp)
+			if !ok || u.Op != token.MUL {
+				return false
+			}
+			ia, ok := u.X.(*ssa.IndexAddr)
+			if !ok {
+				return false
+			}
+			sl, ok := ia.X.Type().Underlying().(*types.Slice)
+			if !ok {
+				return false
+			}
+			b, ok := sl.Elem().Underlying().(*types.Basic)
+			if !ok || b.Kind() != types.Int {
+				return false
+			}
+			return localSlice(ia.X, 0)
 		}):
 			return "element of a local list of databases", true
 		}
